@@ -1156,6 +1156,7 @@ fn op_pool() -> Vec<String> {
         format!("seta.f.0.0.{}", x("amd64 i386")),
         format!("seta.h.0.0.{}", x("!hurd-i386")),
         format!("seta.f.0.0.{}", x("")),
+        format!("seta.h.0.0.{}", x("amd64 !i386 amd64")),
         format!("seta.h.1.0.{}", x("arm64")),
         format!("addp.f.0.0.{}", x("!nocheck")),
         format!("addp.h.0.0.{}", x("cross stage1")),
